@@ -375,8 +375,9 @@ def _insert_many(p, pos, new):
 # ------------------------------------------------------------------ interpreter with injection hooks
 
 
-def run_injected(p):
-    """Execute; returns (exception or None, index of the event that raised or 'to_json')."""
+def run_injected(p, watch=None):
+    """Execute; returns (exception or None, index of the event that raised or 'to_json').
+    watch(idx, ev, res) is called before every event (C16 observes handles through it)."""
     import hugr.tys as tys
 
     # the three in-event injections are realised by rewriting the event on the fly
@@ -385,6 +386,8 @@ def run_injected(p):
 
     def before(idx, ev, res):
         raised_at[0] = idx
+        if watch is not None:
+            watch(idx, ev, res)
 
     p2 = copy.deepcopy(p)
     for ev in p2["events"]:
